@@ -1,6 +1,7 @@
 (* C12 - the property theorems, nothing else.  Each is closed by [exact] of a lemma proved in Replay/*.v
    and followed by Print Assumptions. *)
-From Icv Require Import Base.Tac Replay.RlBytes Replay.RlModel Replay.RlBytesProofs Replay.RlProofs Replay.RlHistory Replay.RlHistoryProofs Replay.RlObs Replay.RlOracleProofs.
+From Icv Require Import Base.Tac Replay.RlBytes Replay.RlModel Replay.RlBytesProofs Replay.RlProofs Replay.RlHistory Replay.RlHistoryProofs Replay.RlObs Replay.RlOracleProofs
+  Replay.RlSize Replay.RlSizeProofs Replay.RlCompact Replay.RlCompactProofs Facts.Facts_c12.
 From Coq Require Import Sorting.Sorted.
 Local Open Scope Z_scope.
 
@@ -181,6 +182,102 @@ Theorem C12_oracle_accepts_model_recv : forall id ts st e,
   rl_get_ep (rl_eps st) id = Some e -> rl_or_recv (rl_ep_rpos e) ts (fst (rl_recv id ts st)) = true.
 Proof. exact rl_oracle_accepts_recv. Qed.
 Print Assumptions C12_oracle_accepts_model_recv.
+
+(* ---------------------------------------------------------------- sizes ---------------------------------------------------------------- *)
+(* The size limits of the CURRENT source, regenerated on every run (tools/facts_c12.py): the netstring Stream reader rejects a
+   length prefix of more than 9 digits and needs the colon within the first 17 bytes, ReplayLog passes no maxMessageLength -
+   with these the reader with limits IS the reader the other theorems are about.  Stops checking when a fact changes. *)
+Theorem C12_reader_limits_of_source :
+  rl_src_recognised = true /\ rl_src_ns_digits = 9 /\ rl_src_colon_window = 16 /\ rl_src_replay_maxlen = None /\
+  forall buf, rl_parse_log_lim rl_src_ns_digits rl_src_replay_maxlen buf = rl_parse_log buf.
+Proof. exact rl_reader_limits_of_source. Qed.
+Print Assumptions C12_reader_limits_of_source.
+
+(* Every entry PersistMessage can write, ReplayLog can read: over the two regenerated limits (what PersistMessage is willing
+   to write, what ReplayLog lets the reader accept) an entry below the digit bound of the frame format is returned by the
+   reading loop, which then goes on with whatever follows.  No longer checks when one side gets a limit the other lacks. *)
+Theorem C12_persist_readable : forall e rest,
+  0 <= rl_e_ts e < 10 ^ 15 ->
+  rl_frame_written rl_src_persist_maxlen (Z.of_nat (length (rl_enc_entry e))) = true ->
+  Z.of_nat (length (rl_enc_entry e)) < 10 ^ rl_src_ns_digits ->
+  rl_parse_log_lim rl_src_ns_digits rl_src_replay_maxlen (rl_frame (rl_enc_entry e) ++ rest) =
+    e :: rl_parse_log_lim rl_src_ns_digits rl_src_replay_maxlen rest.
+Proof. exact rl_persist_readable. Qed.
+Print Assumptions C12_persist_readable.
+
+(* ... by the general criterion: the limits agree iff the read limit is absent, or at least one more than the write limit,
+   or beyond the digit bound *)
+Theorem C12_limits_agree : forall digits wmax rmax len,
+  rl_limits_agree_b digits wmax rmax = true -> 0 <= len -> rl_frame_written wmax len = true -> len < 10 ^ digits ->
+  rl_frame_accepts digits rmax len = true.
+Proof. exact rl_limits_agree. Qed.
+Print Assumptions C12_limits_agree.
+
+(* For ANY limits of the reader: the reading loop returns the entries of an intact file up to the first one it does not
+   accept and nothing after it - an intact entry over a limit hides itself AND every later entry of its file. *)
+Theorem C12_read_limit_hides : forall digits maxlen es e es',
+  1 <= digits <= 17 -> Forall (rl_entry_fits digits maxlen) es ->
+  Z.of_nat (length (rl_enc_entry e)) < 10 ^ 17 ->
+  rl_frame_accepts digits maxlen (Z.of_nat (length (rl_enc_entry e))) = false ->
+  rl_parse_log_lim digits maxlen (rl_enc_log (es ++ e :: es')) = es.
+Proof. exact rl_parse_lim_stop. Qed.
+Print Assumptions C12_read_limit_hides.
+
+Theorem C12_read_limit_keeps : forall digits maxlen es junk,
+  1 <= digits <= 17 -> Forall (rl_entry_fits digits maxlen) es ->
+  rl_parse_log_lim digits maxlen (rl_enc_log es ++ junk) = es ++ rl_parse_log_lim digits maxlen junk.
+Proof. exact rl_parse_lim_prefix. Qed.
+Print Assumptions C12_read_limit_keeps.
+
+(* C12_replayed with its premises spelled out: the clock premises (monotone, advancing before every relay, below 10^15 s) and
+   the ONE size premise - every relayed event has an entry that the reader ReplayLog uses accepts (rl_hsized over the
+   regenerated limits; today: shorter than 10^9 bytes).  By C12_read_limit_hides the size premise cannot be dropped. *)
+Theorem C12_replayed_sized : forall t now0 eps h now ep,
+  0 < now0 -> rl_hclocked now0 h -> rl_hsized rl_src_ns_digits rl_src_replay_maxlen h -> rl_ep_dur ep <> 0 ->
+  let st := rl_hrun t h (rl_init_st now0 eps) in
+  let r := rl_replay t now ep st in
+  rl_msgs (rl_rr_out r) = map rl_e_msg (filter (rl_sel t (rl_ep_zone ep) (rl_ep_pos ep)) (rl_log_entries st)) /\ rl_rr_done r = true.
+Proof. exact rl_replayed_sized. Qed.
+Print Assumptions C12_replayed_sized.
+
+(* Large payloads in the correspondence run are run-length encoded: the encoded entry expands to the bytes PersistMessage
+   writes and its computed length is their number *)
+Theorem C12_run_length_entries : forall x,
+  rl_x_expand (rl_xe_enc x) = rl_enc_entry (rl_xe_entry x) /\
+  rl_xe_len x = Z.of_nat (length (rl_enc_entry (rl_xe_entry x))) /\
+  rl_frame_len (rl_xe_len x) = Z.of_nat (length (rl_frame (rl_enc_entry (rl_xe_entry x)))).
+Proof. exact rl_run_length_entries. Qed.
+Print Assumptions C12_run_length_entries.
+
+(* The record-level model (RlCompact.v: files as lists of entries with run-length encoded messages - what the correspondence
+   run executes for scripts with megabyte payloads) refines the byte-level model: every operation commutes with the map to the
+   bytes of the directory, for entries of ANY size ... *)
+Theorem C12_record_model_ops : forall t now s,
+  (forall e, rl_x_conc (rl_x_persist now e s) = rl_persist now (rl_xe_entry e) (rl_x_conc s)) /\
+  rl_x_conc (rl_x_rotate_cycle now s) = rl_rotate_cycle now (rl_x_conc s) /\
+  (forall clean, rl_x_conc (rl_x_restart clean now s) = rl_restart clean now (rl_x_conc s)) /\
+  rl_x_conc (rl_x_cleanup t now s) = rl_cleanup t now (rl_x_conc s) /\
+  (forall id p, rl_x_conc (rl_x_ack id p s) = rl_ack id p (rl_x_conc s)) /\
+  (forall id ts, fst (rl_x_recv id ts s) = fst (rl_recv id ts (rl_x_conc s)) /\ rl_x_conc (snd (rl_x_recv id ts s)) = snd (rl_recv id ts (rl_x_conc s))) /\
+  (forall sec m, let rx := rl_x_relay t now sec m s in
+                 let rb := rl_relay t now sec (rl_x_expand m) (rl_x_conc s) in
+                 rl_xrl_logged rx = rl_rl_logged rb /\ rl_xrl_live rx = rl_rl_live rb /\ rl_x_conc (rl_xrl_st rx) = rl_rl_st rb).
+Proof. exact rl_x_refines_ops. Qed.
+Print Assumptions C12_record_model_ops.
+
+(* ... and ReplayLog does under the one size premise: every entry of the directory is one the reader returns
+   (timestamp below 10^15, encoding shorter than 10^9 bytes).  Then the byte-level ReplayLog emits the expansion of what the
+   record-level one emits, and the decodable entries of the directory are exactly the recorded ones. *)
+Theorem C12_record_model_replay : forall t now ep st, rl_x_ok st ->
+  let rx := rl_x_replay t now ep st in
+  let rb := rl_replay t now ep (rl_x_conc st) in
+  rl_rr_out rb = rl_x_out_bytes (rl_xrr_out rx) /\ rl_rr_done rb = rl_xrr_done rx /\ rl_rr_st rb = rl_x_conc (rl_xrr_st rx).
+Proof. exact rl_x_conc_replay. Qed.
+Print Assumptions C12_record_model_replay.
+
+Theorem C12_record_model_entries : forall st, rl_x_ok st -> rl_log_entries (rl_x_conc st) = map rl_xe_entry (rl_x_log_entries st).
+Proof. exact rl_x_conc_entries. Qed.
+Print Assumptions C12_record_model_entries.
 
 (* non-vacuity: a concrete two-file log meets the premises of C12_replayed and entries are owed *)
 Example C12_nonvacuous :
